@@ -370,6 +370,11 @@ def pf_scaled(D, T=3, base='storage', fixed=False, win=None, unit='h', freq='h')
         b = mk_market(D, 'base', nA, T, 'r', ec=True, periodicity='2h')      # (a horizon that ends inside a period: T odd)
     elif base == 'periodic_transport':
         b = mk_transport(D, 'base', nA, nB, eff=0.5, periodicity='2h')
+    elif base in ('orderbook_last_outside', 'orderbook_first_outside'):
+        # an order without any step in the horizon keeps its (unmapped) variable: the scale variable comes after ALL variables of the base asset
+        inside = [(0, 2, 2.0), (1, T, -1.5)]
+        orders = inside + [(T + 2, T + 4, 1.0)] if base.endswith('last_outside') else [(-4, -1, 1.0)] + inside
+        b = mk_orderbook(D, 'base', nA, tg, orders)
     elif base == 'take':
         lo = D('base_min', hi=0); hi = D('base_max', lo=0)
         b = eao.assets.Contract(name='base', nodes=nA, price='r', min_cap=lo, max_cap=hi,
@@ -393,7 +398,7 @@ def pf_scaled(D, T=3, base='storage', fixed=False, win=None, unit='h', freq='h')
     return Shape(pf, tg, prices_for(D, pr, T))
 
 
-def pf_structured(D, T=3, inner_win=None, outer_win=None, two_internal=False, inner_win_all=False, two_external=False):
+def pf_structured(D, T=3, inner_win=None, outer_win=None, two_internal=False, inner_win_all=False, two_external=False, inner_orderbook=False):
     """StructuredAsset wrapping {storage on internal node I, transport I->E (, transport I->J, market J)}; outside: market on E"""
     eao = lift.import_eao()
     tg = grid(T)
@@ -407,6 +412,8 @@ def pf_structured(D, T=3, inner_win=None, outer_win=None, two_internal=False, in
         inner.append(mk_transport(D, 'itr2', nJ, nI, eff=None, costs=False, win=w2, tg=tg))
         inner.append(mk_market(D, 'imk', nJ, T, 'q', win=w2, tg=tg))
         pr.append('q')
+    if inner_orderbook:
+        inner.append(mk_orderbook(D, 'iob', nI, tg, ((0, 2, 2.0), (1, T, -1.5))))      # variable names of an order book are numbers
     outside = []
     ext = nE
     if two_external:
